@@ -1,0 +1,9 @@
+// SPDX-FileCopyrightText: 2026 The Pion community <https://pion.ly>
+// SPDX-License-Identifier: MIT
+
+//go:build verif && verif_c35
+
+package h265writer
+
+// VerifIsKeyFrame exposes isKeyFrame to the verification harness (property C35).
+func VerifIsKeyFrame(data []byte) bool { return isKeyFrame(data) }
